@@ -3,6 +3,7 @@ import Heathcliff.Proofs.C07L
 import Heathcliff.Proofs.GenScalingSpec
 import Heathcliff.Proofs.C07F
 import Heathcliff.Proofs.GenEvalCt
+import Heathcliff.Proofs.GenEvalCt3
 
 /- Property theorems only (statements verbatim; proofs are the helper lemmas of Heathcliff/Proofs). -/
 namespace HC.C07
@@ -127,5 +128,10 @@ theorem gen_ct_translate_inplace_balance_partial : type_of% @HC.gc_translate_inp
 
 /-- PARTIAL (flat level): `size1 < size2`, subtraction: common part subtracted, tail copied and negated -/
 theorem gen_ct_translate_inplace_sub_tail_partial : type_of% @HC.gc_translate_inplace_sub_tail_partial := @HC.gc_translate_inplace_sub_tail_partial
+
+/-! ### translator tie, phase 4g: `Evaluator::translate_inplace` = `ctTranslate` / `ctTranslateBalanced` for all size pairs and unequal
+     correction factors (Proofs/GenEvalCt3.lean; witnesses in Props/C02.lean) -/
+theorem gen_ct_translate_inplace_eq_general : type_of% @HC.gt_translate_inplace_eq_general := @HC.gt_translate_inplace_eq_general
+theorem gen_ct_translate_inplace_balanced : type_of% @HC.gt_translate_inplace_balanced := @HC.gt_translate_inplace_balanced
 
 end HC.C07
